@@ -74,8 +74,19 @@ func c06Doc(env *engine.Env, f, sign, comp string) (fixture.Doc, map[string]stri
 	if f == "rpm" {
 		set.RPMCompress = comp
 	}
-	d := set.doc(list, t.Root)
 	refs := map[string]string{"content:big": t.P("share/big.bin"), "content:conf": t.P("etc/app.conf"), "content:tree": t.P("tree")}
+	if f == "rpm" {
+		// the rpm-only entry types read their sources too
+		list = append(list, model.Entry{Src: "doc/manual.txt", Dst: "/usr/share/doc/app/manual.txt", Type: "doc"},
+			model.Entry{Src: "doc/LICENSE", Dst: "/usr/share/licenses/app/LICENSE", Type: "licence"},
+			model.Entry{Src: "doc/README", Dst: "/usr/share/doc/app/README", Type: "readme"},
+			model.Entry{Src: "share/f1024.bin", Dst: "/usr/share/licenses/app/COPYING", Type: "license"},
+			model.Entry{Src: "share/f5000.bin", Dst: "/etc/app/nr.conf", Type: "config|noreplace"},
+			model.Entry{Src: "share/ww.txt", Dst: "/etc/app/mo.conf", Type: "config|missingok"})
+		refs["content:doc"], refs["content:licence"], refs["content:readme"] = t.P("doc/manual.txt"), t.P("doc/LICENSE"), t.P("doc/README")
+		refs["content:license"], refs["content:noreplace"], refs["content:missingok"] = t.P("share/f1024.bin"), t.P("share/f5000.bin"), t.P("share/ww.txt")
+	}
+	d := set.doc(list, t.Root)
 	writeScripts(t, f, "normal")
 	for _, s := range scriptSlots[f] {
 		p := scriptPath(t, "normal", s.Key)
